@@ -259,5 +259,5 @@ impl Group for SecretsGroup {
 }
 
 pub fn groups() -> Vec<Box<dyn Group>> {
-    vec![Box::new(super::c01::EnfGroup { prop: "C03" }), Box::new(SecretsGroup)]
+    vec![Box::new(super::c01::EnfGroup { prop: "C03", free: false }), Box::new(SecretsGroup), Box::new(super::c01::EnfGroup { prop: "C03", free: true })]
 }
